@@ -237,6 +237,34 @@ func main() {
 			}
 		}
 	}
+	// 3 threads with programs of 1, 1 and 2 calls around one key: a writer of key a, a thread that
+	// can trigger a promotion (Range, a missing Load, a Store of another key), and a thread making
+	// two calls (delete / re-store / new key / read)
+	{
+		t1 := []call{{"Store", 0}, {"LoadOrStore", 0}, {"LoadAndDelete", 0}}
+		t2 := []call{{"Range", 0}, {"Load", 2}, {"Store", 1}}
+		t3a := []call{{"LoadAndDelete", 0}, {"Store", 1}, {"Store", 0}, {"Load", 0}, {"Range", 0}, {"Delete", 0}}
+		for n, li := range layouts { // BFS order: the shallowest layouts first
+			if n >= ev.Pick(r, 12, 40) {
+				break
+			}
+			for _, a := range t1 {
+				for _, b := range t2 {
+					for _, c1 := range t3a {
+						for _, c2 := range t3a {
+							if c1 == c2 && c1.op != "Store" {
+								continue
+							}
+							if !r.Thorough() && !(c1.op == "LoadAndDelete" || c1.op == "Delete" || c2.op == "Store") {
+								continue
+							}
+							scs = append(scs, scenario(li, [][]call{{a}, {b}, {c1, c2}}, 2, -2))
+						}
+					}
+				}
+			}
+		}
+	}
 	// a third key: three threads on three different keys plus Range / same-key conflicts
 	third := []call{{"Store", 2}, {"Load", 2}, {"LoadOrStore", 2}, {"LoadAndDelete", 2}}
 	for n, li := range some {
